@@ -1198,7 +1198,8 @@ def fixup_strided_conv(op: Operation, arch, nng):
         and resize_factor != 1
         and weight_tensor is not None
         # the reshaping below folds adjacent filter columns into the depth, which is only valid for an undilated filter
-        and (dilation_x == 1 or stride_x > 3)
+        # (a dilated filter with a stride above 3 only gets here with a single output column, where the stride does not matter)
+        and dilation_x == 1
     ):
         k_w, _ = op.get_kernel_size()
         weight_shape = weight_tensor.shape
